@@ -6,7 +6,7 @@
    connector, queue membership, ear order):
      - the ported EarClip terminates without undefined behaviour (earclip_terminates) and its
        triangles satisfy the chain identity, use only input indices, #triangles + #filtered =
-       V + 2*joins - #live (earclip_chain, earclip_total_correctness, earclip_count_partial);
+       V + 2*joins - #live (earclip_chain, earclip_total_correctness, earclip_count);
      - AddHalfedge's hash pairing is reciprocal with swapped endpoints and complete exactly for
        zero chains (pairing_reciprocal);
      - TriangulateConvex satisfies the same identities (convex_strip_chain, all n);
@@ -14,7 +14,8 @@
      - the exact checker run on the implementation's outputs is sound (tri_check_soundness).
    What is NOT proved:
      - each triangle CCW within epsilon (floating ear costs): decided on outputs by tri_check;
-     - earclip_count_partial still takes the number of remaining rings as a hypothesis;
+     - that no topological degenerate is filtered (nfilt = 0) for epsilon-valid input: the count
+       theorem is exact up to nfilt, which the checker sees as a wrong count;
      (fuel sufficiency is proved: earclip_terminates) *)
 From Coq Require Import ZArith List Bool.
 From MV Require Import Base.Chain Tri.EarClipDefs Tri.EarClipModel Tri.EarClipInit Tri.EarClipRings Tri.EarClipTerm Tri.HalfedgePairDefs Tri.HalfedgePairModel Tri.ConvexModel
@@ -73,19 +74,21 @@ Theorem initialize_establishes_invariants :
 Proof. exact initialize_good_state. Qed.
 Print Assumptions initialize_establishes_invariants.
 
-(* V-2+2h-2(o-1) when every hole was joined (h joins: two extra records each), the o
-   remaining rings end with 2 records each and no topological degenerate was filtered.
-   PARTIAL: the number of remaining rings (nlive = 2*o) is still a hypothesis. *)
-Theorem earclip_count_partial :
-  forall (orc : Oracle) (fuel : nat) (polys : list (list Z)) (st : St) (h o : nat),
-  triangulate orc fuel polys = Some st ->
-  njoin st = h -> nlive st = 2 * o -> nfilt st = 0 ->
-  (Z.of_nat (length (tris st)) = Z.of_nat (numVert polys) - 2 + 2 * Z.of_nat h - 2 * (Z.of_nat o - 1))%Z.
-Proof.
-  exact (fun orc fuel polys st h o H =>
-           earclip_count_init orc fuel polys st h o H (proj1 (triangulate_ghost orc fuel polys st H))).
-Qed.
-Print Assumptions earclip_count_partial.
+(* earclip_count, FULL: for every oracle, if every input contour has at least two vertices,
+   #triangles + #filtered topological degenerates = V - 2 + 2h - 2(o-1), where h = number of
+   JoinPolygons calls (holes key-holed into an outer: two extra records each) and o = #contours - h
+   = the rings left to TriangulatePoly (outers, and holes that found no outer).  Proof: the ring
+   decomposition also counts the non-empty rings (#non-empty + joins = #contours, every non-empty
+   ring keeps >= 2 records, every ring ends with <= 2), and #live = sum of the ring lengths. *)
+Theorem earclip_count :
+  forall (orc : Oracle) (fuel : nat) (polys : list (list Z)) (st : St),
+  triangulate orc fuel polys = Some st -> Forall (fun p : list Z => 2 <= length p) polys ->
+  let h := njoin st in let o := length polys - njoin st in
+  h <= length polys /\
+  (Z.of_nat (length (tris st)) + Z.of_nat (nfilt st) =
+   Z.of_nat (numVert polys) - 2 + 2 * Z.of_nat h - 2 * (Z.of_nat o - 1))%Z.
+Proof. exact earclip_count_full. Qed.
+Print Assumptions earclip_count.
 
 (* every list operation is a Step for every oracle: the ghost counter never decreases and,
    while it is 0, the structural invariants, index validity, the clip count and the chain
